@@ -5,15 +5,15 @@ import random
 
 ID = "C08"
 LEVEL = "exploration"
-TECHNIQUE = "runtime monitoring on a virtual-time simulated network: raw observers (CON and NON registrations) reacting with ACK / Reset / silence / re-registration / deregistration / unrelated request / ICMP error to bursts of state-change triggers; the test resource stamps registration id and state version into every rendering and counts cancellation callbacks; offline oracle over wire log + resource log"
-LEVEL_TEXT = "Each generated history (1-3 observers, 2-10 triggers incl. unsuccessful / last ones, every observer reaction kind, shutdown at the end; in two histories out of five the resource mixes confirmable and non-confirmable notifications within a registration) is judged per registration: token and strictly rising Observe values, bounded 'latest state sent', the ending instant derived from the listed causes, no notification first transmitted after it, exactly one cancellation callback, observer count back to its previous value."
+TECHNIQUE = "runtime monitoring on a virtual-time simulated network: raw observers (CON and NON registrations) reacting with ACK / Reset / silence / re-registration / deregistration / unrelated request / ICMP error to bursts of state-change triggers; the test resource stamps registration id and state version into every rendering and counts cancellation callbacks, and in half of the histories keeps each registration's response object and returns the same object from every rendering once its previous exchange is complete; triggers marked last are raised with a new message, with none (the next rendering is the last notification) or with the kept object; offline oracle over wire log + resource log"
+LEVEL_TEXT = "Each generated history (1-3 observers, 2-10 triggers incl. unsuccessful / last ones, every observer reaction kind, shutdown at the end; in two histories out of five the resource mixes confirmable and non-confirmable notifications within a registration; in every second history the handler returns a kept response object again; the trigger marked last comes as a new message, as a plain rendering or as the kept object) is judged per registration: token and strictly rising Observe values, bounded 'latest state sent', the ending instant derived from the listed causes, no notification first transmitted after it, exactly one cancellation callback, observer count back to its previous value."
 LEVEL_NOTE = "Trusted: the judge in checks/c08.py, simnet (log order and synchronous-cause attribution), refcodec. 'Eventually' is decided as 'by the end of the run or the registration's end'. Byte-identical retransmissions of a notification first sent before the end are not judged here (C03)."
 RULE = (
-    "one case = one history: observers (CON/NON registration, per-notification reaction script), trigger schedule (gap classes), special events (unsuccessful / last trigger, re-registration, deregistration, unrelated request on the token, ICMP error). "
+    "one case = one history: observers (CON/NON registration, per-notification reaction script), trigger schedule (gap classes), special events (unsuccessful / last trigger in its three forms, kept or new response objects, re-registration, deregistration, unrelated request on the token, ICMP error). "
     "Non-trivial = at least one registration ended by a cause other than shutdown, or triggers overlapped an unacknowledged notification; distinct = distinct tuples of (registration type, reaction script, special event, trigger gap classes)"
 )
 ASSUMPTIONS = ["default TransportTuning", "the test resource derives from aiocoap.resource.ObservableResource and wraps the cancellation callback it hands to accept()"]
-REQUIRED_MONITORS = {"explicit_final_during_render": 20, "token_and_rising_observe": 300, "latest_state": 60, "end_cause": 300, "nothing_after_end": 300, "callback_once": 300, "count_returns": 200, "mixed_reliability_notification": 300, "slow_add_observation": 40}
+REQUIRED_MONITORS = {"explicit_final_during_render": 20, "token_and_rising_observe": 300, "latest_state": 60, "end_cause": 300, "nothing_after_end": 300, "callback_once": 300, "count_returns": 200, "mixed_reliability_notification": 300, "slow_add_observation": 40, "kept_response_object_returned_again": 300, "rising_observe_with_kept_object": 300, "last_trigger_render": 20, "last_trigger_push-kept": 20, "last_trigger_push-new": 15, "last_trigger_with_kept_object": 8}
 
 KNOWN_KEYS = ("rst-to-non-notification-ignored", "queued-notification-sent-after-end")
 
@@ -86,7 +86,19 @@ def gen(r):
     # the resource mixes reliability within a registration (RFC 7641 4.5: mostly non-confirmable, a confirmable one now
     # and then), whatever the type of the registering request was
     rel = r.choice([None, None, None, "mixed-3", "mixed-2"])
-    return {"observers": observers, "triggers": triggers, "shutdown_at": shutdown_at, "render_delay": render_delay, "late_special": late_special, "rel": rel}
+    # the handler keeps the response object of a registration and returns the same object from every rendering (once the
+    # exchange that carried it before is complete), instead of building a new Message each time
+    reuse = r.choice([None, "kept"])
+    if not slow and triggers and triggers[-1]["kind"] == "update" and r.random() < (0.6 if reuse else 0.2):
+        # more histories in which the resource itself ends the registrations with its closing trigger
+        triggers[-1]["kind"] = "last"
+        late_special = bool(render_delay)
+    # how a trigger marked last is raised: with a new Message, with no message at all (the rendering that follows is the
+    # last notification), or with the Message object the registration has sent before
+    for tr in triggers:
+        if tr["kind"] == "last":
+            tr["how"] = r.choice(["push-new", "render", "push-kept"] + (["render", "push-kept", "push-kept"] if reuse else []))
+    return {"observers": observers, "triggers": triggers, "shutdown_at": shutdown_at, "render_delay": render_delay, "late_special": late_special, "rel": rel, "reuse": reuse}
 
 
 def run_history(h, seed, rep, case):
@@ -123,6 +135,30 @@ def run_history(h, seed, rep, case):
                 self.rids = {}
                 self.nrid = 0
                 self.first_done = set()
+                self.kept = {}  # rid -> {"msg": Message handed out before, "payloads": [...], "busy": bool}
+
+            def kept_free(self, rid):
+                """The response object kept for this registration, if the handler may touch it again: everything it was
+                handed over for has been on the wire, and confirmable transmissions of it have been answered."""
+                k = self.kept.get(rid)
+                if k is None or k["busy"]:
+                    return None
+                for pl in k["payloads"]:
+                    sent = [e for e in net.log if e.kind == "send" and e.src == S and e.msg is not None and e.msg.payload == pl and rc.is_response(e.msg.code)]
+                    if not sent:
+                        return None  # held back behind another exchange (or never sent)
+                    for e in sent:
+                        if e.msg.type == rc.CON and not any(x.kind == "deliver" and x.dst == S and x.src == e.dst and x.msg is not None and x.msg.mid == e.msg.mid and x.msg.type in (rc.ACK, rc.RST) and x.seq > e.seq for x in net.log):
+                            return None  # may still be retransmitted from the object
+                k["payloads"] = k["payloads"][-1:]
+                return k["msg"]
+
+            def keep(self, rid, m):
+                k = self.kept.get(rid)
+                if k is None or k["msg"] is not m:
+                    k = self.kept[rid] = {"msg": m, "payloads": [], "busy": False}
+                k["payloads"].append(bytes(m.payload))
+                return k
 
             async def add_observation(self, request, serverobservation):
                 self.nrid += 1
@@ -161,7 +197,14 @@ def run_history(h, seed, rep, case):
                         raise aiocoap.error.NotFound("first rendering failed")
                 if h.get("render_delay"):
                     await asyncio.sleep(h["render_delay"])  # ... then the handler takes its time
-                m = aiocoap.Message(payload=b"rid=%d;ver=%d" % (rid, ver))
+                m = self.kept_free(rid) if h.get("reuse") and rid else None
+                if m is not None:
+                    rep.monitor("kept_response_object_returned_again")
+                    m.payload = b"rid=%d;ver=%d" % (rid, ver)
+                else:
+                    m = aiocoap.Message(payload=b"rid=%d;ver=%d" % (rid, ver))
+                if h.get("reuse") and rid:
+                    self.keep(rid, m)
                 if h.get("rel"):
                     k = int(h["rel"].split("-")[1])
                     m.transport_tuning = aiocoap.Reliable() if ver % k == 0 else aiocoap.Unreliable()
@@ -228,9 +271,23 @@ def run_history(h, seed, rep, case):
                         o.trigger(aiocoap.Message(code=aiocoap.NOT_FOUND, payload=b"rid=%d;gone;ver=%d" % (o._rid, res_.version)))
             else:
                 res_.version += 1
+                how = tr.get("how", "push-new")
                 for o in list(res_._observations):
-                    o.trigger(aiocoap.Message(code=aiocoap.CONTENT, payload=b"rid=%d;lastmsg;ver=%d" % (o._rid, res_.version)), is_last=True)
-            rlog.append({"ev": "trigger", "kind": tr["kind"], "ver": res_.version, "t": loop.time(), "seq": len(net.log)})
+                    rep.monitor("last_trigger_" + how)
+                    if how == "render":
+                        # no message given: the rendering the library asks for next is the last notification
+                        o.trigger(None, is_last=True)
+                        continue
+                    m = res_.kept_free(o._rid) if how == "push-kept" and h.get("reuse") else None
+                    if m is not None:
+                        rep.monitor("last_trigger_with_kept_object")
+                        m.code = aiocoap.CONTENT
+                        m.payload = b"rid=%d;lastmsg;ver=%d" % (o._rid, res_.version)
+                        res_.keep(o._rid, m)["busy"] = True  # handed to the library for good
+                    else:
+                        m = aiocoap.Message(code=aiocoap.CONTENT, payload=b"rid=%d;lastmsg;ver=%d" % (o._rid, res_.version))
+                    o.trigger(m, is_last=True)
+            rlog.append({"ev": "trigger", "kind": tr["kind"], "how": tr.get("how"), "ver": res_.version, "t": loop.time(), "seq": len(net.log)})
 
         def special(i):
             ob = h["observers"][i]
@@ -304,6 +361,26 @@ def judge(h, box, res, rep, case):
             if pl.startswith(b"rid="):
                 rid = int(pl[4 : pl.index(b";")])
             notifs.setdefault((e.dst, e.msg.token), []).append(e)
+    def stamped_ver(e):
+        pl = e.msg.payload
+        return int(pl[pl.index(b";ver=") + 5 :]) if pl.startswith(b"rid=") and b";ver=" in pl else None
+
+    def closes(e, tr):
+        """Is this datagram the notification that trigger tr (unsuccessful / marked last) is sent as?"""
+        if e.seq < tr["seq"]:
+            return False
+        if not (64 <= e.msg.code < 96) or b";lastmsg;" in e.msg.payload:
+            return True
+        # marked last without a message: the first rendering begun after the trigger (renderings stamp the version
+        # they read when they begin, every trigger raises the version)
+        return tr.get("how") == "render" and (stamped_ver(e) or 0) >= tr["ver"]
+
+    def closing_how(e, reg):
+        for tr in triggers:
+            if tr["kind"] == "last" and tr["seq"] >= reg["seq"] and tr["li"] > reg["li"] and closes(e, tr):
+                return tr.get("how") or "push-new"
+        return None
+
     first_seq = {}
     for es in notifs.values():
         for e in es:
@@ -333,6 +410,7 @@ def judge(h, box, res, rep, case):
         # ---- (a) token + strictly rising Observe ----
         rep.monitor("token_and_rising_observe")
         obsvals = []
+        obsev = []
         for e in mine:
             if e.msg.token != tok or e.dst != dst:
                 rep.violation("notification-with-foreign-token", "a notification of a registration carries another token / goes to another endpoint", wit(rid=rid, event=e.brief()), case)
@@ -340,9 +418,21 @@ def judge(h, box, res, rep, case):
             o = rc.opt1(e.msg, 6)
             if o is not None:
                 obsvals.append(rc.uint_value(o))
-        if any(b <= a for a, b in zip(obsvals, obsvals[1:])):
-            rep.violation("observe-values-not-rising", "Observe values within one registration are not strictly increasing", wit(rid=rid, values=obsvals), case)
+                obsev.append(e)
+        bad = [i + 1 for i, (a, b) in enumerate(zip(obsvals, obsvals[1:])) if b <= a]
+        if bad:
+            e = obsev[bad[0]]
+            how = closing_how(e, reg)
+            if how is not None:
+                # the message that repeats / falls behind is the notification the resource marked last
+                key = "observe-values-not-rising/last-notification%s/%s" % ("-in-kept-response-object" if h.get("reuse") else "", how)
+                text = "the notification marked last carries an Observe value that is not above the previous notification's"
+            else:
+                key, text = "observe-values-not-rising", "Observe values within one registration are not strictly increasing"
+            rep.violation(key, text, wit(rid=rid, values=obsvals, event=e.brief()), case)
             return
+        if h.get("reuse"):
+            rep.monitor("rising_observe_with_kept_object")
         if len(mine) > 2 and any(b.t - a.t < 1.0 for a, b in zip(mine, mine[1:])):
             overlapped = True
         # ---- (c) ending instant from the listed causes ----
@@ -373,7 +463,7 @@ def judge(h, box, res, rep, case):
                 causes.append((ff["t"], ff["seq"], "first-response-unsuccessful", term[0].t if term else ff["t"], term[0].seq if term else ff["seq"]))
         for tr in triggers:
             if tr["seq"] >= reg["seq"] and tr["li"] > reg["li"] and tr["kind"] in ("unsuccessful", "last") and tr["t"] > reg["t"] - 1e-12:
-                term = [e for e in mine if e.seq >= tr["seq"] and (not (64 <= e.msg.code < 96) or b";lastmsg;" in e.msg.payload)]
+                term = [e for e in mine if closes(e, tr)]
                 if term:
                     causes.append((tr["t"], None, tr["kind"], term[0].t, term[0].seq))
                 else:
